@@ -42,7 +42,11 @@ func (s *sessions) update(sess *session) {
 			i.mux.Lock()
 			defer i.mux.Unlock()
 			if i.cancel != nil {
-				i.cancel <- true
+				// Do not block if a cancel is already pending: the renewal goroutine may have ended.
+				select {
+				case i.cancel <- true:
+				default:
+				}
 			}
 			s.Entries[sess.realm] = sess
 			return
@@ -125,7 +129,11 @@ func (s *session) destroy() {
 	s.mux.Lock()
 	defer s.mux.Unlock()
 	if s.cancel != nil {
-		s.cancel <- true
+		// Do not block if a cancel is already pending: the renewal goroutine may have ended.
+		select {
+		case s.cancel <- true:
+		default:
+		}
 	}
 	s.endTime = time.Now().UTC()
 	s.renewTill = s.endTime
